@@ -550,3 +550,72 @@ fn main() {
 
     server.run();
 }
+
+/// Lets a test harness drive the request loop over any byte stream instead of a socket
+/// (the file is then included as a module of the harness crate). No logic of its own:
+/// `serve_one` is one iteration of `run_client_loop`, `disconnect` is its tail.
+#[cfg(feature = "verif")]
+#[allow(dead_code)]
+pub mod verif_export {
+    use super::*;
+    use std::io::{Read, Write};
+
+    pub struct Server(Arc<SharedState>);
+    pub struct Conn(ClientContext);
+
+    impl Server {
+        pub fn new(db: Option<Database>, db_config: DBConfig) -> Self {
+            Server(Arc::new(SharedState::new(db, db_config)))
+        }
+
+        pub fn connect(&self) -> Conn {
+            Conn(ClientContext { session: None })
+        }
+
+        /// Read one request, process it, write the response. `Ok(false)` where the
+        /// loop of `run_client_loop` would end.
+        pub fn serve_one<R: Read, W: Write>(
+            &self,
+            conn: &mut Conn,
+            reader: &mut R,
+            writer: &mut W,
+        ) -> Result<bool, TcpError> {
+            if self.0.shutdown.load(Ordering::Relaxed) {
+                send_response(writer, &Response::ShuttingDown)?;
+                return Ok(false);
+            }
+            let request = match recv_request(reader) {
+                Ok(req) => req,
+                Err(TcpError::ConnectionClosed) => return Ok(false),
+                Err(TcpError::Io(ref e)) if e.kind() == std::io::ErrorKind::UnexpectedEof => {
+                    return Ok(false);
+                }
+                Err(e) => return Err(e),
+            };
+            let response = process_request(request, &self.0, &mut conn.0);
+            let more = !matches!(response, Response::ShuttingDown);
+            send_response(writer, &response)?;
+            Ok(more)
+        }
+
+        /// What `run_client_loop` does when the loop has ended.
+        pub fn disconnect(&self, mut conn: Conn) {
+            if let Some(mut session) = conn.0.session.take() {
+                let _ = session.abort_transaction();
+            }
+        }
+
+        pub fn in_transaction(conn: &Conn) -> bool {
+            conn.0.session.is_some()
+        }
+
+        pub fn with_db<T>(&self, f: impl FnOnce(Option<&Database>) -> T) -> T {
+            f(self.0.db.read().as_ref())
+        }
+
+        /// Take the database handle out (for a harness that wants to end it its own way).
+        pub fn take_db(&self) -> Option<Database> {
+            self.0.db.write().take()
+        }
+    }
+}
